@@ -59,6 +59,20 @@ def gen(seed):
                                                   {'a': 'replace_stdout',
                                                    'which': rng.choice(['stdout', 'stderr'])}))
             spec['plan'] = _ws.order_plan(spec['plan'])
+    if not spec['opt'].get('j') and not spec['opt'].get('xml') and rng.random() < 0.05:
+        # a test that drives a nested in-process run of the runner (tests of test infrastructure)
+        from .. import common as C
+        disc = [d for d in W.Model(spec['world']).discover()
+                if C.test_phases(d) and not d['t'].get('doctest')]
+        if disc and not any(e['a'] in ('close_stdout', 'replace_stdout', 'swap_stdout',
+                                       'wrap_stdout') for e in spec['plan']):
+            d = rng.choice(disc)
+            nested = C.fault_entry(d, rng.choice(C.test_phases(d)),
+                                   {'a': 'nested_run', 'buffer': rng.random() < 0.8,
+                                    'inner_replaces': rng.random() < 0.25})
+            # after the writes of that phase, before anything that raises there
+            spec['plan'] = [e for e in spec['plan'] if e['a'] == 'write'] + [nested] + \
+                [e for e in spec['plan'] if e['a'] != 'write']
     return spec
 
 
